@@ -224,10 +224,9 @@ def gen_seq(rng, tier, ports=None, ign_form=None):
 
 def gen_seq_str_ign(rng, tier):
     """ignore_pins as a plain multi-letter str that CONTAINS the one-letter D / Q port name (CDN / QN with ports D / Q, sd / nq or
-    qn with ports d / q), next to the list and None forms on the same kind of circuit"""
+    qn with ports d / q), the list and None forms come from gen_seq"""
     out = []
-    for ports, form in ((("D", "Q"), "str-r"), (("D", "Q"), "str-qn"), (("d", "q"), "str-qn"), (("d", "q"), "str-r"),
-                        (("D", "Q"), "list"), (("d", "q"), "none")):
+    for ports, form in ((("D", "Q"), "str-r"), (("D", "Q"), "str-qn"), (("d", "q"), "str-qn"), (("d", "q"), "str-r")):
         c = gen_seq(rng, tier, ports, form)
         c["kind"] += ":one-letter-port-in-str" if form.startswith("str") else ""
         out.append(c)
@@ -252,13 +251,13 @@ def gen_seq_unloaded_q(rng, tier):
         for inst in insts[:u]:
             bare_flop(d, inst, rng.choice([n[0] for n in d["nodes"] if "." not in n[0] and n[0] != "clk"]))
         d = add_flops(rng, d, insts[u:], rng.random() < 0.5)
-        for j in range(rng.randint(0, 2)):
+        for j in range(rng.randint(0, 1)):
             d["nodes"].append([f"spare{j}", "input", False, []])
         if not any(nd[2] for nd in d["nodes"]):
             [nd for nd in d["nodes"] if nd[1] in lib.GATES][-1][2] = True
         k = len(insts)
         ins = [nd[0] for nd in d["nodes"] if nd[1] == "input"]
-        out.append({"fn": "sequential_unroll", "circuit": lib.shuffle_nodes(rng, d), "n": 2 if k + 2 * len(ins) <= MAX_FREE[tier] else 1, "n2": 1,
+        out.append({"fn": "sequential_unroll", "circuit": lib.shuffle_nodes(rng, d), "n": 1, "n2": 1,
                     "d": "d", "q": "q", "ign": rng.choice([None, "clk"]), "afo": rng.random() < 0.5, "iv": rng.choice([None, "0"]), "ru": True,
                     "prefix": "cg_unroll", "kind": "seq-unloaded-q", "once": True})
     return out
@@ -305,7 +304,7 @@ def gen_seq_dict_orders(rng, tier):
 
 
 def generate(rng, tier):
-    nu, na, ns, nf = (54, 2, 26, 1) if tier == "quick" else (170, 5, 85, 3)
+    nu, na, ns, nf = (50, 2, 20, 1) if tier == "quick" else (170, 5, 80, 3)
     sc = float(os.environ.get("VERIF_SCALE", "1"))      # <1 only for mutant trials on a loaded machine
     nu, na, ns, nf = max(8, int(nu * sc)), max(1, int(na * sc)), max(8, int(ns * sc)), max(1, int(nf * sc))
     out = [gen_unroll(rng, tier) for _ in range(nu)]
